@@ -759,12 +759,61 @@ impl Gen {
             _ => None,
         };
         let receiver = self.receiver(c, &sender);
+        let mut belief_price = belief_price;
+        let mut max_slippage = self.slippage();
+        // boundary steering: tolerances / belief prices placed right at the simulated outcome
+        if self.rng.chance(1, 5) && funds.len() == 1 {
+            let sim: Result<mantra_dex_std::pool_manager::SimulationResponse, _> = c.w.app.wrap().query_wasm_smart(
+                c.w.a.pm.to_string(),
+                &mantra_dex_std::pool_manager::QueryMsg::Simulation {
+                    offer_asset: funds[0].clone(),
+                    ask_asset_denom: ask.clone(),
+                    pool_identifier: pi.pool_identifier.clone(),
+                },
+            );
+            if let Ok(sim) = sim {
+                let ret = sim.return_amount.u128();
+                let spread = sim.slippage_amount.u128();
+                if ret > 0 {
+                    if self.rng.chance(1, 2) {
+                        // max_slippage around spread / (return + spread), the quantity the contract compares
+                        if let Ok(r) = Decimal::checked_from_ratio(spread, ret + spread) {
+                            let eps = Decimal::from_atomics(self.rng.range(0, 3) as u128, 18).unwrap();
+                            let v = match self.rng.below(3) {
+                                0 => r,
+                                1 => r.checked_add(eps).unwrap_or(r),
+                                _ => r.checked_sub(eps).unwrap_or(r),
+                            };
+                            max_slippage = Some(v);
+                            belief_price = None;
+                        }
+                    } else {
+                        // belief price such that offer / belief x (1 - s) is within a unit of the return
+                        let s_eff = max_slippage.unwrap_or(dec("0.01")).min(dec("0.5"));
+                        let one_minus = Decimal::one() - s_eff;
+                        // expected = ret / (1 - s)  =>  belief = offer / expected
+                        let target = ret as i128 + self.rng.range(0, 4) as i128 - 2;
+                        if target > 0 && !one_minus.is_zero() {
+                            if let Ok(exp) = Decimal::checked_from_ratio(target as u128, 1u128).and_then(|t| t.checked_div(one_minus).map_err(|_| cosmwasm_std::CheckedFromRatioError::DivideByZero)) {
+                                if !exp.is_zero() {
+                                    if let Ok(bp) = Decimal::checked_from_ratio(amt, 1u128).and_then(|o| o.checked_div(exp).map_err(|_| cosmwasm_std::CheckedFromRatioError::DivideByZero)) {
+                                        if !bp.is_zero() {
+                                            belief_price = Some(bp);
+                                        }
+                                    }
+                                }
+                            }
+                        }
+                    }
+                }
+            }
+        }
         Op::Pm {
             sender,
             msg: PmMsg::Swap {
                 ask_asset_denom: ask,
                 belief_price,
-                max_slippage: self.slippage(),
+                max_slippage,
                 receiver,
                 pool_identifier: pi.pool_identifier.clone(),
             },
@@ -796,7 +845,8 @@ impl Gen {
             }
             let p = **self.rng.pick(&cands);
             let outs: Vec<&String> = p.pool_info.asset_denoms.iter().filter(|d| **d != cur).collect();
-            let out = (*self.rng.pick(&outs)).clone();
+            // rarely a degenerate hop that asks for the denom it offers
+            let out = if self.rng.chance(1, 40) { cur.clone() } else { (*self.rng.pick(&outs)).clone() };
             used.push(p.pool_info.pool_identifier.clone());
             ops.push(SwapOperation::MantraSwap {
                 token_in_denom: cur.clone(),
@@ -1165,10 +1215,13 @@ impl Gen {
         self.rng.pick_opt(&v).map(|p| (*p).clone())
     }
 
-    fn pos_sender(&mut self, c: &SimCore, p: &mantra_dex_std::farm_manager::Position) -> String {
+    fn pos_sender(&mut self, c: &SimCore, p: &mantra_dex_std::farm_manager::Position, allow_pm: bool) -> String {
         match self.rng.below(14) {
             0 => self.user(c),
             1 if self.rng.chance(1, 2) => c.w.a.owner.to_string(),
+            // the pool manager's address as a plain sender: the only delegate the farm manager trusts
+            // (never with funds: the real contract only spends what its code says)
+            2 if allow_pm && self.rng.chance(1, 2) => c.w.a.pm.to_string(),
             _ => p.receiver.to_string(),
         }
     }
@@ -1179,7 +1232,7 @@ impl Gen {
             Some(p) => p,
             None => return self.gen_pos_create(c),
         };
-        let sender = self.pos_sender(c, &p);
+        let sender = self.pos_sender(c, &p, false);
         let b = bal(&c.obs.bal, &sender, &p.lp_asset.denom);
         let amt = if b == 0 { 5 } else { self.rng.log_u128(b) };
         Op::Fm {
@@ -1195,7 +1248,7 @@ impl Gen {
             Some(p) => p,
             None => return self.gen_pos_create(c),
         };
-        let sender = self.pos_sender(c, &p);
+        let sender = self.pos_sender(c, &p, true);
         let a = p.lp_asset.amount.u128();
         let lp_asset = match self.rng.below(8) {
             0..=2 => None,
@@ -1222,7 +1275,7 @@ impl Gen {
             Some(p) => p,
             None => return self.gen_pos_create(c),
         };
-        let sender = self.pos_sender(c, &p);
+        let sender = self.pos_sender(c, &p, true);
         let emergency_unlock = if emergency {
             Some(true)
         } else {
